@@ -170,6 +170,13 @@ func (tc *timeoutCounter) SetTimeoutCount(count int) (set bool) {
 	tc.mutex.Lock()
 	defer tc.mutex.Unlock()
 
+	// the counter saturates at the configured cap, so that applying the cap after an
+	// increment never lowers a count that was set from outside
+	timeoutCap := viper.GetInt("server_chain.round_timeouts.timeout_cap")
+	if timeoutCap > 0 && count > timeoutCap {
+		count = timeoutCap
+	}
+
 	if count <= tc.count {
 		return // false (not set)
 	}
